@@ -26,6 +26,19 @@ class Derive:
 
 
 def _place(d, p, ix, depth):
+    # element k of a tuple / array / closure environment built in one piece: follow only that element
+    if p["p"] and isinstance(p["p"][0], dict) and "f" in p["p"][0] and "n" not in p["p"][0]:
+        dt = ix.single_def(p["l"])
+        if dt and dt[0] == "assign" and dt[3]["rv"]["k"] == "agg" and dt[3]["rv"].get("ak") in ("tuple", "closure") and p["p"][0]["f"] < len(dt[3]["rv"]["ops"]):
+            d.locals.add(p["l"])
+            inner = dt[3]["rv"]["ops"][p["p"][0]["f"]]
+            rest = p["p"][1:]
+            q = op_place(inner)
+            if q is not None:
+                _place(d, {"l": q["l"], "p": list(q["p"]) + list(rest), "ty": p.get("ty", "")}, ix, depth + 1)
+            else:
+                _op(d, inner, ix, depth + 1)
+            return
     path = tuple((pr.get("n") if "n" in pr else f"#{pr['f']}") for pr in p["p"] if isinstance(pr, dict) and "f" in pr)
     if path:
         d.paths.add(path)
